@@ -13,7 +13,10 @@ import tempfile
 from .. import common
 from ..codec import to_coq, coq_str, same
 
-GEN = ['JsonUtilGen.v']
+GEN = ['JsonUtilGen.v', 'Decisions.v']
+DECISIONS = ['Cache.subbuild_key', 'FileBuilder._sanitize_filename', 'FileBuilder._sanitize_args', 'FileBuilder._build_file_cache_lookup', 'FileBuilder._subbuild_cache_lookup']
+SITES = False
+ORDER = False
 ARGS = [(), (1,), (1.0,), (True,), ("1",), ([1, 2],), ((1, 2),), ([2, 1],), ({"a": 1, "b": 2},), ({"b": 2, "a": 1},),
         ({1: "x"},), ({"1": "x"},), (None,), (0,), (-0.0,), (False,), (2 ** 63,), (float(2 ** 63),), (float("inf"),),
         ("\U0001f600",), ([[]],), ([()],), (1, 2), ((1,), 2), ({"k": [1, {"z": (1, 2)}]},), ({"k": [1, {"z": [1, 2]}]},)]
@@ -32,6 +35,9 @@ def t2(rep, tier, workdir):
     if tier == "quick":
         rng.shuffle(calls)
         calls = calls[:45]
+    # the same data split differently between positional and keyword arguments is a different call
+    calls += [("f", ("k", 1), {}), ("f", (), {"k": 1}), ("f", ("k", [1]), {}), ("f", (), {"k": (1,)}), ("f", (1, "k", 1), {}),
+              ("f", (1,), {"k": 1}), ("f", ([], {}), {}), ("f", ([],), {}), ("f", ({},), {}), ("f", ("k",), {}), ("fk", (), {})]
     keys = []
     for f, a, k in calls:
         op = SubbuildOperation(f, JsonUtil.sanitize(a), JsonUtil.sanitize(k), [], None, False, False, False)
@@ -109,10 +115,18 @@ def t3(rep, tier, budget=1):
         pairs = list(itertools.product(range(len(ARGS)), repeat=2))
         rng.shuffle(pairs)
         pairs = pairs[: (60 if tier == "quick" else 400) * budget]
-        for n, (i, j) in enumerate(pairs):
-            a1, a2 = ARGS[i], ARGS[j]
+        quads = []
+        for (i, j) in pairs:
             k1 = rng.choice(KWARGS[:4])
             k2 = k1 if rng.random() < 0.7 else rng.choice(KWARGS[:4])
+            quads.append((i, j, ARGS[i], k1, ARGS[j], k2))
+        # the same data split differently between positional and keyword arguments, or between the
+        # function name and the arguments, is a different call
+        SPLITS = [(("k", 1), {}, (), {"k": 1}), ((1, "k", 1), {}, (1,), {"k": 1}), (("k", [1]), {}, (), {"k": [1]}),
+                  (([], {}), {}, ([],), {}), (({"k": 1},), {}, (), {"k": 1}), (("k", 1), {}, ("k", 1), {})]
+        for n, (a1, k1, a2, k2) in enumerate(SPLITS):
+            quads.append((1000 + n, 2000 + n, a1, k1, a2, k2))
+        for n, (i, j, a1, k1, a2, k2) in enumerate(quads):
             want = JsonUtil.is_equal(json.loads(json.dumps([list(a1), k1])), json.loads(json.dumps([list(a2), k2])))
             root = os.path.join(base, "p%d" % n)
             os.makedirs(root)
